@@ -18,10 +18,11 @@ import (
 // with pool p and returns the observable outcome (estimated parameters, likelihoods
 // reported to hooks) as a float vector.
 type body struct {
-	name   string
-	nested bool // jobs call pool operations themselves
-	sizes  func(T int) []int
-	run    func(n int, p tp.ThreadPool) ([]float64, error)
+	expectErr bool // the routine is DESIGNED to fail (error propagation through the pool is the subject)
+	name      string
+	nested    bool // jobs call pool operations themselves
+	sizes     func(T int) []int
+	run       func(n int, p tp.ThreadPool) ([]float64, error)
 }
 
 // reuseFirst: when set, every body first runs its estimation step once sequentially on the
@@ -623,6 +624,124 @@ func bodies() []body {
 				return nil, err
 			}
 			return append(params(est.GetParameters()), liks...), nil
+		}})
+
+	// optimisation flags: with emissions (or transitions) fixed some per-thread accumulators
+	// stay nil and the merge after Wait takes other branches
+	for _, opt := range [][2]bool{{false, true}, {true, false}} {
+		opt := opt
+		bs = append(bs, body{name: fmt.Sprintf("vector.Hmm[Categorical;seqs=3;steps=2;optEmissions=%v;optTransitions=%v]", opt[0], opt[1]), nested: true,
+			sizes: func(T int) []int { return []int{3} },
+			run: func(n int, p tp.ThreadPool) ([]float64, error) {
+				pi := NewDenseFloat64Vector([]float64{0.5, 0.5})
+				tr := NewDenseFloat64Matrix([]float64{0.75, 0.25, 0.5, 0.5}, 2, 2)
+				e1, err := scalarEstimator.NewCategoricalEstimator([]float64{0.25, 0.75})
+				if err != nil {
+					return nil, err
+				}
+				e2, err := scalarEstimator.NewCategoricalEstimator([]float64{0.75, 0.25})
+				if err != nil {
+					return nil, err
+				}
+				var liks []float64
+				hook := generic.BaumWelchHook{Value: func(h generic.BasicHmm, i int, l, eps float64) {
+					if !math.IsNaN(l) {
+						liks = append(liks, l)
+					}
+				}}
+				e, err := vectorEstimator.NewHmmEstimator(pi, tr, nil, nil, nil, []ScalarEstimator{e1, e2}, 1e-8, 2, hook)
+				if err != nil {
+					return nil, err
+				}
+				e.OptimizeEmissions, e.OptimizeTransitions = opt[0], opt[1]
+				xs := []ConstVector{NewDenseFloat64Vector([]float64{1, 1, 0, 1}), NewDenseFloat64Vector([]float64{0, 0, 1}), NewDenseFloat64Vector([]float64{1, 0, 0, 0, 1})}
+				if err := twice(p, func(q tp.ThreadPool) error { return e.EstimateOnData(xs, nil, q) }); err != nil {
+					return nil, err
+				}
+				est, err := e.GetEstimate()
+				if err != nil {
+					return nil, err
+				}
+				return append(params(est.GetParameters()), liks...), nil
+			}})
+	}
+	for _, opt := range [][2]bool{{false, true}, {true, false}} {
+		opt := opt
+		bs = append(bs, body{name: fmt.Sprintf("scalar.Mixture[Poisson,Poisson;steps=2;optEmissions=%v;optWeights=%v]", opt[0], opt[1]), nested: true,
+			sizes: func(T int) []int { return []int{T + 1} },
+			run: func(n int, p tp.ThreadPool) ([]float64, error) {
+				a, err := scalarEstimator.NewPoissonEstimator(0.5)
+				if err != nil {
+					return nil, err
+				}
+				b, err := scalarEstimator.NewPoissonEstimator(3)
+				if err != nil {
+					return nil, err
+				}
+				var liks []float64
+				hook := generic.EmHook{Value: func(m generic.BasicMixture, i int, l, eps float64) {
+					if !math.IsNaN(l) {
+						liks = append(liks, l)
+					}
+				}}
+				e, err := scalarEstimator.NewMixtureEstimator([]float64{0.5, 0.5}, []ScalarEstimator{a, b}, 1e-8, 2, hook)
+				if err != nil {
+					return nil, err
+				}
+				e.OptimizeEmissions, e.OptimizeWeights = opt[0], opt[1]
+				if err := twice(p, func(q tp.ThreadPool) error { return e.EstimateOnData(NewDenseFloat64Vector(dataCount(n)), nil, q) }); err != nil {
+					return nil, err
+				}
+				est, err := e.GetEstimate()
+				if err != nil {
+					return nil, err
+				}
+				return append(params(est.GetParameters()), liks...), nil
+			}})
+	}
+
+	// error propagation: a component estimator FAILS in the middle of EM (a Poisson
+	// component collapses onto the zero counts, its rate becomes 0: "invalid parameter");
+	// the error must come back for every pool size and schedule, at the same iteration
+	bs = append(bs, body{name: "vector.Mixture[ScalarIid(Poisson)x2;component-fails]", nested: true, expectErr: true,
+		sizes: func(T int) []int { return []int{6} },
+		run: func(n int, p tp.ThreadPool) ([]float64, error) {
+			p1, err := scalarEstimator.NewPoissonEstimator(1)
+			if err != nil {
+				return nil, err
+			}
+			p2, err := scalarEstimator.NewPoissonEstimator(40)
+			if err != nil {
+				return nil, err
+			}
+			e1, err := vectorEstimator.NewScalarIid(p1, -1)
+			if err != nil {
+				return nil, err
+			}
+			e2, err := vectorEstimator.NewScalarIid(p2, -1)
+			if err != nil {
+				return nil, err
+			}
+			var liks []float64
+			hook := generic.EmHook{Value: func(m generic.BasicMixture, i int, l, eps float64) {
+				if !math.IsNaN(l) {
+					liks = append(liks, l)
+				}
+			}}
+			e, err := vectorEstimator.NewMixtureEstimator([]float64{0.5, 0.5}, []VectorEstimator{e1, e2}, 1e-8, 6, hook)
+			if err != nil {
+				return nil, err
+			}
+			xs := []ConstVector{}
+			for _, v := range []float64{0, 0, 52, 0, 47, 0}[:n] {
+				xs = append(xs, NewDenseFloat64Vector([]float64{v}))
+			}
+			err = e.EstimateOnData(xs, nil, p)
+			// after a failed estimation the parameters are unspecified (sequentially the
+			// remaining component jobs are not run, in parallel they are); what must
+			// agree is the error and the likelihoods reported before it
+			out := append([]float64{float64(len(liks))}, liks...)
+			return out, err
 		}})
 
 	// logistic regression (SAGA workers through the pool)
